@@ -19,6 +19,8 @@ from __future__ import annotations
 
 import struct
 
+import c04_pool as P
+
 
 CUR_RNG = None     # set by synth(): lets every box draw its header form
 
@@ -159,7 +161,7 @@ def schm(rng):
 
 def tenc(rng, iv=None):
     iv = iv if iv is not None else rng.choice([8, 16])
-    return full(b"tenc", 0, 0, bytes([0, 0, 1, iv]) + rbytes(rng, 16))
+    return full(b"tenc", 0, 0, bytes([0, 0, 1, iv]) + P.fixed(rng, 16))
 
 
 def sinf(rng, fmt=b"avc1", iv=None):
@@ -177,7 +179,8 @@ def vttc(rng):
 def avcc(rng):
     profile = rng.choice([66, 77, 88, 100, 110, 122, 244, 44, 100, 100])
     ext = profile in (100, 110, 122, 244, 44, 83, 86, 118, 128, 134, 135, 138, 139)
-    nal = lambda lo, hi: rbytes(rng, rng.randrange(lo, hi))  # noqa: E731
+    def nal(lo, hi):       # parameter sets are opaque byte strings (at least one byte)
+        return P.content(rng) or b"\x67" if rng.random() < .4 else rbytes(rng, rng.randrange(lo, hi))
     sps = [nal(1, 30) for _ in range(rng.choice([0, 1, 1, 2, 31]))]
     pps = [nal(1, 12) for _ in range(rng.choice([0, 1, 1, 3]))]
     p = bytes([1, profile, bnd(rng, 8), bnd(rng, 8), 0xFC | rng.randrange(4), 0xE0 | len(sps)])
@@ -205,7 +208,8 @@ def hvcc(rng):
     b.put(8, arrays)
     p = b.bytes()
     for i in range(arrays):
-        nals = [rbytes(rng, rng.randrange(1, 20)) for _ in range(rng.choice([0, 1, 1, 2]))]
+        nals = [(P.content(rng) or b"\x40") if rng.random() < .4 else rbytes(rng, rng.randrange(1, 20))
+                for _ in range(rng.choice([0, 1, 1, 2]))]
         p += bytes([(rng.randrange(2) << 7) | rng.choice([32, 33, 34, 39, rng.randrange(64)])]) + struct.pack(">H", len(nals))
         for n in nals:
             p += struct.pack(">H", len(n)) + n
@@ -285,7 +289,7 @@ def esds(rng):
         b.put(1, 0)
     # trailing bytes (sync extension …); sizes around the 1-/2-byte descriptor length boundary
     extra = rng.choice([0, 0, 3, 130, 127 - b.n // 8, 128 - b.n // 8])
-    asc = b.bytes() + rbytes(rng, max(0, extra))
+    asc = b.bytes() + (P.content(rng) if rng.random() < .3 else rbytes(rng, max(0, extra)))
     width = rng.choice([0, 0, 4, 2, 1])
     dcd = struct.pack(">BB", 0x40, (rng.choice([5, 4]) << 2) | (rng.randrange(2) << 1) | 1)
     dcd += bnd(rng, 24).to_bytes(3, "big") + struct.pack(">II", bnd(rng, 32), bnd(rng, 32))
@@ -300,7 +304,7 @@ def esds(rng):
         es += bytes([len(url)]) + url
     if es_flags & 0x20:
         es += struct.pack(">H", bnd(rng, 16))
-    es += descr(4, dcd, width) + descr(6, bytes([2]), rng.choice([0, width]))
+    es += descr(4, dcd, width) + descr(6, rng.choice([bytes([2]), P.content(rng) or bytes([2])]), rng.choice([0, width]))
     return full(b"esds", 0, 0, descr(3, es, width))
 
 
